@@ -101,7 +101,7 @@ func run(r *ev.Run) {
 	m.phaseHistory()
 
 	// floors a healthy quick run exceeds comfortably (measured ≈ 3x the floor)
-	r.MinDistinct = r.Scale(3000, 60000)
+	r.MinDistinct = r.Scale(9000, 60000)
 }
 
 // ---------------------------------------------------------------------------
@@ -174,7 +174,7 @@ func schemaShape(s *Schema) string {
 
 func (m *monitor) phaseSearch() {
 	r := m.r
-	nCorpora := r.Scale(420, 7000)
+	nCorpora := r.Scale(1200, 7000)
 	nQueries := r.Scale(22, 40)
 	parallel(nCorpora, 16, func(i int) {
 		g := r.Rng(fmt.Sprintf("search-%d", i))
@@ -319,7 +319,7 @@ func (m *monitor) oneCorpus(i int, g *rng.Rand, nQueries int) {
 
 func (m *monitor) phaseHistory() {
 	r := m.r
-	n := r.Scale(120, 2000)
+	n := r.Scale(300, 2000)
 	base := r.TempDir()
 	parallel(n, 48, func(i int) { // fsync-bound, not CPU-bound
 		g := r.Rng(fmt.Sprintf("history-%d", i))
